@@ -18,6 +18,9 @@ CHECKS = {
  "C07": ("model_checking", "explicit-state BFS to closure on the real retained trie store vs map + reference matcher",
   "BFS to closure over AddOrReplace/Remove/ClearAll on the real retained store (topics incl. prefixes of each other, empty levels, $-topics); every state: GetRetainedMessage, GetMatchedMessages for every filter of the C02 universe, Iterate, and copy-independence of results. Wire-level replay-on-subscribe enumeration is added as built (DESIGN.md).",
   "Trusted: refmqtt matcher, state dump.", "DESIGN.md 8/C07"),
+ "C10": ("model_checking", "explicit-state BFS (depth-bounded, virtual clock, blocking Read as a scheduler thread) on the real mem queue vs a reference list model",
+  "Every operation sequence over Add(6 variants)/Read/ReadInflight/Remove/Replace/Init/Close/Advance up to depth 6 (quick) / 8 (thorough), plus breadth-first continuation from directed resumed-session states, for max in {1,2,3} x inflight_expiry in {0,30s}, on the real mem queue; after every operation the private list is compared with the reference list (conservation, bound), outputs with the FIFO/id/expiry/oversize/replay rules, the drop victim with the documented ladder, and the summed notifier deltas with the contents.",
+  "Callers respect the documented preconditions (drain ReadInflight before Read; Init only after Close). Counters are compared from the last Init(clean). The redis queue is covered via C09's crash/restart histories rather than by this operation-level search. Trusted: vsched Cond/clock semantics, state dump.", "DESIGN.md 8/C10"),
 }
 NA_DEFAULT = "check not built yet in this session (planned design in DESIGN.md section 8)"
 
